@@ -106,4 +106,14 @@ class Driver(Device, metaclass=DriverMeta):
                     self.send_message(v.to_def_message())
 
         if isinstance(msg, message.news.NewVector):
-            self._vectors[msg.name].from_new_message(msg)
+            vector = self._vectors.get(msg.name)
+            if vector is None:
+                logger.warning("Driver: unknown property %s in client message", msg.name)
+                return
+            if not isinstance(msg, getattr(vector, "new_message_class", ())):
+                logger.warning("Driver: wrong message type for property %s", msg.name)
+                return
+            try:
+                vector.from_new_message(msg)
+            except Exception:
+                logger.exception("Driver: ignoring invalid client message")
